@@ -9,7 +9,8 @@ COQ_CASE_TY = "RunH.case"
 CASE_TIMEOUT = 60
 SHARD = 20
 NEST = [t for t in MUTABLE_TOP if any(x in json.dumps(t[1:]) for x in ('"cont"', '"list"', '"vec"', '"union"', '"bitlist"'))]
-RULE = ("nested mutable types x histories that obtain child views ([i], .field, value()), keep up to 9 of them alive "
+RULE = ("nested mutable types x histories that obtain child views ([i], .field, value(), iteration with the iterator "
+        "kept alive, slices), keep up to 9 of them alive "
         "and mutate through them in random order; after every command root and encoding of EVERY held view are "
         "compared with the store model; non-trivial = at least one mutation through a child view at depth >= 1")
 
@@ -19,12 +20,12 @@ def gen_inputs(ctx):
     n = 1000 if ctx.thorough else 220
     for i in range(n):
         t = NEST[i % len(NEST)]
-        yield gen_history(rng, t, rng.randrange(4, 26), p_child=0.35)
+        yield gen_history(rng, t, rng.randrange(4, 26), p_child=0.35, p_iter=0.4)
 
 
 def build(inp):
     coq, obs, st = execute(inp)
-    names = ["P:initial"] + ["P:step%d" % (i + 1) for i in range(len(inp["cmds"]))]
+    names = ["P:initial"] + ["P:step%d" % (i + 1) for i in range(len(obs) - 1)]
     deep = any(c[0] in ("set", "append", "pop", "bitset", "change") and c[1] > 0 for c in inp["cmds"])
     return Case(inp, coq, obs, names, nontrivial=deep, kind=inp["t"][0])
 
